@@ -78,14 +78,19 @@ class World:
 class Rec:
     """Recorder callable."""
 
-    def __init__(self, world, rid, ret, raises=None):
+    def __init__(self, world, rid, ret, raises=None, sets=None):
         self.world = world
         self.rid = rid
         self.ret = ret
         self.raises = raises
+        # side effect: [name of an object of the namespace, attribute, value]
+        self.sets = sets
+        self.target = None
 
     def __call__(self):
         self.world.tick(('call', self.rid))
+        if self.sets and self.target is not None:
+            setattr(self.target, self.sets[1], self.sets[2])
         if self.raises:
             raise EXC[self.raises]('raised by f%s' % self.rid)
         return self.ret
@@ -320,7 +325,7 @@ def build(spec, world, mode, keep=None):
     if t == 'rec':
         return Rec(world, spec['id'], build(spec.get('ret'), world, mode,
                                             keep),
-                   spec.get('raises'))
+                   spec.get('raises'), spec.get('sets'))
     if t == 'obj':
         return Obj({k: build(v, world, mode, keep)
                     for k, v in spec['attrs'].items()})
@@ -382,4 +387,8 @@ def build(spec, world, mode, keep=None):
 
 
 def build_ns(ns_spec, world, mode):
-    return {k: build(v, world, mode) for k, v in ns_spec.items()}
+    ns = {k: build(v, world, mode) for k, v in ns_spec.items()}
+    for v in ns.values():
+        if isinstance(v, Rec) and v.sets:
+            v.target = ns.get(v.sets[0])
+    return ns
